@@ -186,7 +186,8 @@ Definition check_case (c : rcase) (start : res (list float)) (edges : list (res 
                 end in
               if negb start_ok then Some "start:soc-is-not-the-query-value"
               else
-                match check_route en sv v sm (mk_edges QN Q_of_float c) st0 st0 0 0 0 (map rmapQ edges) 0 with
+                let '(ta, tb, zeros) := route_tables en sv v sm in
+                match check_route en sv v sm (mk_edges QN Q_of_float c) st0 st0 ta tb zeros zeros (map rmapQ edges) 0 with
                 | Some bad => Some bad
                 | None =>
                     let hav := Q_of_float (rc_hav c) in
